@@ -151,12 +151,16 @@ fn refuse_reason(msg: &str) -> &'static str {
         "xml"
     } else if msg.contains("has not been allocated by this sender") {
         "foreign"
+    } else if msg.contains("is not implemented") {
+        "notimpl"
     } else if msg.contains("is bigger than") {
         "toolong"
     } else if msg.contains("number of parity symbols is 0") {
         "rsnoparity"
-    } else if msg.contains("exceed the 256 symbols") {
-        "rs256"
+    } else if msg.contains("fields of the FEC OTI") {
+        "rsfields"
+    } else if msg.contains("symbols of Reed Solomon GF(2^8)") {
+        "rs255"
     } else if msg.contains("source symbols per block of the FEC scheme") {
         "kmax"
     } else if msg.contains("scheme parameters are not defined") {
@@ -1642,10 +1646,10 @@ fn admit_lengths(fec: u32, e: u64, b: u64, parity: u64) -> Vec<u64> {
     let mut v: Vec<u128> = vec![0, 1, e1, e1 + 1, e1 * b1, e1 * b1 + 1, cap - 1, cap, cap + 1, u64::MAX as u128];
     let size = e1 * b1 * max_sbn(fec);
     v.extend([size.saturating_sub(1), size, size + 1]);
-    // Reed-Solomon: a_large + parity around 256
+    // Reed-Solomon: a_large + parity around 255 / 256
     if parity <= 256 {
         let k = 256 - parity as u128;
-        v.extend([e1 * k, e1 * k + 1, e1 * (k + 1) + 1]);
+        v.extend([e1 * k, e1 * k + 1, e1 * (k + 1) + 1, (e1 * k).saturating_sub(e1), (e1 * k).saturating_sub(e1) + 1]);
     }
     // Raptor / RaptorQ: a_large around K max, number of blocks around the u8 / u16 limits of Z
     for k in [8192u128, 56403] {
@@ -1684,9 +1688,10 @@ fn admit_cases(ctx: &mut Ctx, eng: &mut dyn Engine, rng: &mut Rng, nrandom: usiz
         };
         ctx.count(&key);
     };
-    let geoms: [(u64, u64); 16] = [
+    let geoms: [(u64, u64); 21] = [
         (0, 64), (16, 0), (1, 1), (4, 2), (4, 255), (4, 256), (16, 8192), (16, 8193), (4, 56403), (4, 56404),
         (1024, 64), (65535, 65535), (65535, 4294967295), (1, 4294967295), (2, 65536), (65535, 65537),
+        (4, 253), (4, 254), (4, 65533), (4, 65534), (4, 65535),
     ];
     for fec in [0u32, 1, 2, 5, 6, 129] {
         for (e, b) in geoms {
